@@ -1,12 +1,12 @@
 SPECIFICATION Spec
 CONSTANTS
-  RgRows <- RgThorough
+  RgRows <- RgQuick
   MaxPreds = 2
   Offsets <- OffThorough
-  Limits <- LimAll
-  BatchSizes = {1, 2, 3}
+  Limits <- LimThorough
+  BatchSizes = {1, 3}
   Policies = {"Selectors", "Mask", "Auto"}
   Threshold = 2
-  NullPreds <- NullThorough
+  NullPreds <- NullQuick
 INVARIANTS S1_Prefix S1_Complete S2_Batches S2_Done S3_InBounds S4_ByGroup
 CHECK_DEADLOCK FALSE
